@@ -72,6 +72,7 @@ def eigh_jvp(ctx):
     core = cur
     has_zero, has_thr = False, False
     shape_ok = True
+    thr_terms = []
     for c, rep, passed in guards:
         cm = m_cmp(c)
         if cm is None:
@@ -91,6 +92,7 @@ def eigh_jvp(ctx):
                                                       and func_name(lhs_s) == "builtins.abs" else None)
             if inner is passed and rv is not None and abs(rv) >= 1e6:
                 has_thr = True
+                thr_terms.append(strip_wrappers(rhs))
             else:
                 shape_ok = False
         else:
@@ -102,6 +104,15 @@ def eigh_jvp(ctx):
            "replacement reaches the reciprocal", fi)
     ctx.ob("GUARD-1", "linalg_utils._eigh_jvp: every guard tests the value it passes through", shape_ok and bool(guards),
            "tested == passed in all guards" if shape_ok else "a guard tests a different value than it passes", fi)
+    # "non-degenerate" is an absolute notion in the property (every symmetric matrix): a threshold that grows
+    # with the data declares resolved gaps of large matrices degenerate and drops their eigenvector couplings
+    dep = [show(t, maxdepth=3)[:80] for t in thr_terms
+           if any(x.op == "sym" or (x.op == "call" and not is_const(x, None)) for x in subterms(t))]
+    small = all(const_num(t) is not None and 0 < const_num(t) <= 1e-3 for t in thr_terms)
+    ctx.ob("GUARD-1", "linalg_utils._eigh_jvp: the degeneracy threshold is a small data-independent constant",
+           bool(thr_terms) and not dep and small,
+           (f"threshold depends on run-time data: {dep}" if dep else
+            f"threshold {[const_num(t) for t in thr_terms]}"), fi)
     # the gaps: w_j - w_i
     d = m_binop(core, "-")
     gaps_ok = d is not None and all(any(y is getitem(call_like_eigh(ev, fi), const(0)) or True for y in [x])
@@ -190,7 +201,7 @@ def whitelist(ctx, s: Sib):
             a = strip_wrappers(a)
             neg = a.op == "unop" and a.args[0] == "-" and strip_wrappers(a.args[1]) is b
             src = b.op == "getitem" and is_const(b.args[1], 1) and b.args[0].op == "call" and \
-                (func_name(b.args[0]) or "").endswith("_eigh")
+                (func_name(b.args[0]) or "").split(".")[-1] in ("_eigh", "eigh")
             if not (neg and src):
                 problems.append(f"component {ci}: not where(cond, -v, v) of _eigh(fock)[1]")
                 continue
@@ -203,6 +214,15 @@ def whitelist(ctx, s: Sib):
         ctx.ob("PURE-2", f"{cls}.optimize: returned orbitals are eigenvectors, only re-signed per column and sliced",
                n_ok == len(comps) and not problems, "; ".join(problems) or
                f"{len(comps)} component(s): _eigh(fock)[1] -> where(c, -v, v) -> stack -> [-1] -> [:, :nelec]", e.fi)
+        # every eigendecomposition differentiated through by the AD samplers is the degeneracy-safe one
+        eig = sorted({func_name(t) or "?" for t in subterms(out) if t.op == "call" and
+                      (func_name(t) or "").split(".")[-1] in ("eigh", "_eigh", "eig", "eigvalsh", "eigvals")})
+        for sc in [t for t in subterms(out) if t.op == "call" and match_scan(t) is not None]:
+            bd = s.ev.open_closure(match_scan(sc)[0], [sym("§carry"), sym("§x")])
+            eig = sorted(set(eig) | {func_name(t) or "?" for t in subterms(bd) if t.op == "call" and
+                                     (func_name(t) or "").split(".")[-1] in ("eigh", "_eigh", "eig", "eigvalsh", "eigvals")})
+        ctx.ob("PURE-2", f"{cls}.optimize: every eigendecomposition is linalg_utils._eigh (guarded derivative)",
+               bool(eig) and all(n.endswith("linalg_utils._eigh") for n in eig), f"calls: {eig}", e.fi)
         # the scan runs n_opt_iter times from the trial density
         scans = [t for t in subterms(out) if t.op == "call" and match_scan(t) is not None]
         okl = len(scans) == 1 and match_scan(scans[0])[3].op == "attr" and match_scan(scans[0])[3].args[1] == "n_opt_iter"
@@ -262,7 +282,7 @@ def fock_sibling(ctx, s: Sib):
     ub = s.ev.open_closure(match_scan(us[0])[0], [Cu, x])
 
     def eigh_arg(body, which):
-        cs = [t for t in subterms(body) if t.op == "call" and (func_name(t) or "").endswith("._eigh")]
+        cs = [t for t in subterms(body) if t.op == "call" and (func_name(t) or "").split(".")[-1] in ("_eigh", "eigh")]
         cs = sorted(cs, key=lambda t: t.uid)
         return [call_parts(c)[1][0] for c in cs]
 
